@@ -236,6 +236,16 @@ pub(crate) fn cmd_log(req: &Value) -> Value {
                 for e in es {
                     if let Some(Value::Object(k)) = e.get("kind") {
                         for (name, v) in k {
+                            if name == "Message" {
+                                // compiler log lines; only those with the requested prefix (e.g. "verif:")
+                                if let Some(prefix) = req.get("msg_prefix").and_then(|p| p.as_str()) {
+                                    let text = v.get("text").and_then(|t| t.as_str()).unwrap_or("");
+                                    if text.starts_with(prefix) {
+                                        entries.push(json!({ "Message": text }));
+                                    }
+                                }
+                                continue;
+                            }
                             if want.iter().any(|w| w == name) {
                                 entries.push(json!({ name.clone(): v.clone() }));
                             }
@@ -515,8 +525,16 @@ fn cmd_linecol(req: &Value) -> Value {
     }
 }
 
+static LOGGER: prqlc::debug::MessageLogger = prqlc::debug::MessageLogger;
+
 fn main() {
     install_hook();
+    // route the compiler's `log` records into its own debug log (only active between log_start/log_finish)
+    // (initialise the version OnceLock first: log_start() calls compiler_version() while holding the
+    // debug-log lock, and its fallback path logs -> self-deadlock once a logger is installed)
+    let _ = prqlc::compiler_version();
+    let _ = log::set_logger(&LOGGER);
+    log::set_max_level(log::LevelFilter::Debug);
     let cmd = std::env::args().nth(1).unwrap_or_default();
     let stdin = std::io::stdin();
     let stdout = std::io::stdout();
